@@ -2,21 +2,27 @@
 
 Started once per runner worker as `python -m omv.lib_c18_child` (a JSON-lines server on
 stdin/stdout).  It imports OpenMDAO once, warms every recording history up, and then serves requests
-by *forking*: one forked process records the history and is killed at the requested crash point, a
-second forked process (which never had the database open) opens whatever is left on disk with
-om.CaseReader and dumps what it can read.  This helper is single threaded, so fork() is safe; it
-reaps every child it forks; each run gets its own directory below the scratch cwd.
+by *forking*: a forked process records the history and dies at the requested crash point; whatever
+is left on disk (database + journal) is then opened with om.CaseReader by this helper process, which
+never has the database of a run open itself (it only forks the recorders; with C18_READ_FORK=1 the
+read-back is done by a second forked process instead) and dumped as JSON.  The helper is single
+threaded, so fork() is safe; it reaps every child it forks; each run gets its own directory
+(below /dev/shm when there is one - see _make_base - else below the scratch cwd) which is removed
+after the run (C18_KEEP=1 keeps it).
 
 Crash points
   stmt : the name `sqlite3` inside openmdao.recorders.sqlite_recorder is replaced (in the forked
          recording process only) by a proxy whose connect() passes counting Connection/Cursor
          subclasses; every connect/execute/executemany/commit/__enter__/__exit__/close is a boundary;
          the process calls os._exit(137) immediately *before* boundary k (k == N: after the last).
+  snap : same seam, but instead of dying at boundary k the (single) recording process copies the
+         database files and journals to snap_<k>/ - the bytes a death at that boundary leaves.
   sys  : the forked recording process is traced with
            strace -f -o /dev/null -P <db> -P <db>-journal -e trace=<set>
                   -e inject=<syscall>:signal=SIGKILL:when=<m> -p <pid>
          which kills it on entry to the m-th call of <syscall> touching the database or its journal
-         (strace counts `when` per system call name, hence one name per run).
+         (the call is not executed; strace counts `when` per system call name, hence one name per
+         run; the tracee waits on a pipe until /proc/<pid>/status shows the tracer).
 
 Requests (one JSON object per line) -> responses (one JSON object per line)
   {"op":"count","hist":H,"mode":"stmt"}          -> {"n":N,"events":[[kind,what,db,in_txn_after],..]}
@@ -24,7 +30,8 @@ Requests (one JSON object per line) -> responses (one JSON object per line)
   {"op":"run","hist":H,"mode":"none"|"stmt"|"sys","k":k | "sc":name,"m":m}
                                                   -> {"exit":"exit:0"|"exit:137"|"sig:9"|...,
                                                       "dbs":{dbname: dump}}
-  {"op":"snap","hist":H,"ks":[k,...]}            -> {"exit":..,"snaps":{k:{"dbs":{dbname: dump}}}}
+  {"op":"snap","hist":H,"ks":[k,...]}            -> {"exit":..,"snaps":{k:{"dbs":{dbname: dump}}},
+                                                      "end":{"dbs":..}}
 """
 import gc
 import json
